@@ -42,7 +42,7 @@ func plans(e *common.Env, i int, r *rand.Rand) (prog.Config, prog.Plan) {
 	switch k := r.IntN(40); {
 	case k < 2 && i%7 == 0:
 		p.Sparse = true
-		p.SparseHigh = r.IntN(3) == 0
+		p.SparseHigh = e.Thorough && r.IntN(3) == 0
 	case k < 4:
 		p.DeferredStream = true
 	case k < 6:
@@ -75,6 +75,21 @@ func main() {
 				plan = prog.Plan{DeferredStream: true, MaxOps: 6}
 			default:
 				plan = prog.Plan{PreFilter: true, MaxOps: 6}
+			}
+		}
+		if i >= 9 && i < 9+len(prog.BatchSizes)+3 {
+			// every batch size in a plain program with several WriteCompressed calls, three of
+			// them also after a high sparse object number (object streams need version >= 1.5, compact)
+			j := i - 9
+			cfg.VIdx = 5 + j%4
+			cfg.HR = false
+			plan = prog.Plan{Batch: prog.BatchSizes[j%len(prog.BatchSizes)], MaxOps: 4}
+			if j >= len(prog.BatchSizes) {
+				plan.Batch = []int{33, 101, 257}[j-len(prog.BatchSizes)]
+				plan.Sparse, plan.SparseHigh = true, true
+			}
+			if plan.Batch == 1000 && j >= len(prog.BatchSizes) {
+				plan.Batch = 300
 			}
 		}
 		res := prog.Run(e.Rand, cfg, plan)
